@@ -7,6 +7,7 @@ def run(ctx):
     equiv.rule_classes_partition(ctx)
     equiv.rule_merge_test(ctx)
     equiv.rule_propagation_discipline(ctx)
+    equiv.rule_grounded_seeds(ctx)
     ctx.assume("rustc's MIR; provenance trees of sa/prov.py (flow-insensitive, closures resolved to the adaptor they are handed to)")
     ctx.assume("ArgumentSet::new_with_labels gives ids 0..n-1 in the order of the label slice (C12/C13 rules labels-append-only, declaration-order)")
     return (
